@@ -985,9 +985,10 @@ class QueryBuilder(Selectable, Term):  # type:ignore[misc]
         self._from = [
             _replace_selectable(table, current_table, new_table) for table in self._from
         ]
-        if self._insert_table == current_table:
+        # (a statement without an INSERT / UPDATE target holds None there: that is "no target", not a reference to replace)
+        if self._insert_table is not None and self._insert_table == current_table:
             self._insert_table = new_table
-        if self._update_table == current_table:
+        if self._update_table is not None and self._update_table == current_table:
             self._update_table = new_table
 
         self._with = [
